@@ -166,12 +166,13 @@ Theorem c04x_trip o x' e : op_ok (xlog x) o -> is_xappend o = true -> xpub_step 
       xlog x' = rotated (xbumped (xlog x) (x_idx x) (x_tid x) (x_off x) (op_required (xlog x) o)) n /\
       xspec_pos x' = (n + 1) * l_tlen (xlog x)) \/
      (e = MaxPositionExceeded /\ n = two31 - 1 /\
-      xlog x' = xbumped (xlog x) (x_idx x) (x_tid x) (x_off x) (op_required (xlog x) o) /\ xspec_pos x' = xspec_pos x)).
+      xlog x' = xbumped (xlog x) (x_idx x) (x_tid x) (x_off x) (op_required (xlog x) o) /\ xspec_pos x' = l_tlen (xlog x) * two31)).
 Proof. intros Hok Ha Hs Hne. destruct (xreachable_inv m rv x Hr) as (n & Hinv).
   destruct (xpub_trip m rv x n o x' e Hinv Hok Ha Hs Hne) as (H1 & H2 & H3 & H4 & H5).
   exists n. do 4 (split; [assumption|]).
   destruct H5 as [(A & B & ->) | (A & B & ->)]; [left|right]; repeat split; auto.
-  unfold xspec_pos. cbn [x_begin x_off]. rewrite (xi_begin _ _ Hinv). ring. Qed.
+  - unfold xspec_pos. cbn [x_begin x_off]. rewrite (xi_begin _ _ Hinv). ring.
+  - unfold xspec_pos. cbn [x_begin x_off]. rewrite (xi_begin _ _ Hinv), B. unfold two31. ring. Qed.
 
 Theorem c04x_total o : op_ok (xlog x) o -> is_xappend o = true ->
   match snd (xpub_step m rv x o) with
